@@ -128,29 +128,29 @@ func c19wVary(rt *rapid.T, s string) string {
 func c19wGenTags(rt *rapid.T, rs []string, foreign []string) []string {
 	var out []string
 	keep := func() { out = append(out, rs...) }
-	switch m := rapid.IntRange(0, 99).Draw(rt, "tmode"); {
-	case m < 52:
+	switch gPick(rt, []string{"keep", "drop", "add", "keep", "null", "respell", "keep", "none", "replace", "keep", "keep"}, "tmode") {
+	case "keep":
 		keep()
-	case m < 62: // drop one reserved tag
+	case "drop": // drop one reserved tag
 		keep()
 		if len(out) > 0 {
 			k := rapid.IntRange(0, len(out)-1).Draw(rt, "drop")
 			out = append(out[:k:k], out[k+1:]...)
 		}
-	case m < 72: // add a namespaced tag which the target does not have
+	case "add": // add a namespaced tag which the target does not have
 		keep()
 		out = append(out, gPick(rt, foreign, "foreign"))
-	case m < 80: // same reserved tags spelled differently
+	case "respell": // same reserved tags spelled differently
 		for _, r := range rs {
 			out = append(out, gPick(rt, []string{strings.ToUpper(r), " " + r, r + " ", strings.ToUpper(r[:1]) + r[1:], r}, "respell"))
 		}
-	case m < 87: // none of the reserved tags
-	case m < 94: // the null value: clear all
+	case "none": // none of the reserved tags
+	case "null": // the null value: clear all
 		if gPct(rt, 40) {
 			keep()
 		}
 		out = append(out, gPick(rt, []string{"␡", "␡", " ␡ "}, "null"))
-	default: // replace the value of a reserved tag
+	case "replace": // replace the value of a reserved tag
 		keep()
 		if len(out) > 0 {
 			k := rapid.IntRange(0, len(out)-1).Draw(rt, "repl")
@@ -175,7 +175,7 @@ func c19wGenTags(rt *rapid.T, rs []string, foreign []string) []string {
 			out = append(out, gPick(rt, foreign, "foreign"))
 		}
 	}
-	if gPct(rt, 4) { // more than the count limit
+	if rapid.IntRange(0, 39).Draw(rt, "many") == 23 { // more than the count limit
 		for i := 0; i < 18; i++ {
 			out = append(out, fmt.Sprintf("t%02d", i))
 		}
@@ -333,24 +333,42 @@ func c19wGen(rt *rapid.T) c19wProg {
 		var sb strings.Builder
 		for i := 0; i < n; i++ {
 			if i > 0 {
-				sb.WriteString(gPick(rt, []string{" ", " ", " ", " ", " ", " ", " ", "  ", "\t", ",", ",", ",", ",", ", ", ", ", " , ", " ,", ",,", ", ,", ""}, "sep"))
+				sb.WriteString(gPick(rt, []string{" ", ",", " ", ", ", " ", ",", "  ", " ", "\t", ",", " , ", " ", ", ", ",,", " ,", " ", ",", " ", ",", " "}, "sep"))
 			}
 			sb.WriteString(term(u))
 		}
 		q := sb.String()
-		if gPct(rt, 3) {
-			q = gPick(rt, []string{`"` + q, q + `"`, q + ",", "," + q, " "}, "mangle")
+		if rapid.IntRange(0, 39).Draw(rt, "mangle") == 17 {
+			q = gPick(rt, []string{`"` + q, q + ",", q + `"`, "," + q}, "how")
 		}
 		return q
 	}
 
+	// probe: somebody else looks for the object which has just been suspended / deleted / reinstated
+	probe := func(tags []string, notUser int) {
+		if len(tags) == 0 || !gPct(rt, 75) {
+			return
+		}
+		var cands []int
+		for s, u := range p.Sess {
+			if u != notUser {
+				cands = append(cands, s)
+			}
+		}
+		s := gPick(rt, cands, "prober")
+		q := gPick(rt, tags, "probetag")
+		if gPct(rt, 30) {
+			q += gPick(rt, []string{",", ", ", " "}, "probesep") + gPick(rt, c19wPlain, "probeplain")
+		}
+		p.Ops = append(p.Ops, wOp{K: "set", S: s, T: "fnd", H: map[string]any{"public": q}}, wOp{K: "get", S: s, T: "fnd", A: "sub"})
+	}
 	deadUser := map[int]bool{}
-	n := rapid.IntRange(6, 22).Draw(rt, "nops")
+	n := rapid.IntRange(8, 26).Draw(rt, "nops")
 	for i := 0; i < n; i++ {
 		s := rapid.IntRange(0, len(p.Sess)-1).Draw(rt, "s")
 		u := p.Sess[s]
 		switch x := rapid.IntRange(0, 99).Draw(rt, "opk"); {
-		case x < 32: // search
+		case x < 28: // search
 			q := query(u)
 			if gPct(rt, 78) {
 				p.Ops = append(p.Ops, wOp{K: "set", S: s, T: "fnd", H: map[string]any{"public": q}})
@@ -358,23 +376,23 @@ func c19wGen(rt *rapid.T) c19wProg {
 				p.Ops = append(p.Ops, wOp{K: "set", S: s, T: "fnd", H: map[string]any{"public": "␡", "private": q}})
 			}
 			p.Ops = append(p.Ops, wOp{K: "get", S: s, T: "fnd", A: "sub"})
-		case x < 55: // account tags
+		case x < 53: // account tags
 			p.Ops = append(p.Ops, wOp{K: "set", S: s, T: "me", A: "tags", X: c19wGenTags(rt, resUser(u), foreign)})
-		case x < 68: // group tags, by the owner or by somebody else
+		case x < 67: // group tags, by the owner or by somebody else
 			k := rapid.IntRange(0, 1).Draw(rt, "grp")
 			by := owners[k]
 			if gPct(rt, 30) {
 				by = s
 			}
 			p.Ops = append(p.Ops, wOp{K: "set", S: by, T: fmt.Sprintf("g%d", k), A: "tags", X: c19wGenTags(rt, resGrp(k), foreign)})
-		case x < 72: // {acc} update carrying tags
+		case x < 70: // {acc} update carrying tags
 			raw := wJSON(map[string]any{"acc": map[string]any{"id": "$id", "user": "$self", "tags": c19wGenTags(rt, resUser(u), foreign)}})
 			p.Ops = append(p.Ops, wOp{K: "raw", S: s, A: raw, B: c19wAccTags})
-		case x < 76: // a new group created with tags
+		case x < 74: // a new group created with tags
 			tags := c19wGenTags(rt, nil, foreign)
 			raw := wJSON(map[string]any{"sub": map[string]any{"id": "$id", "topic": "new", "set": map[string]any{"tags": tags}}})
 			p.Ops = append(p.Ops, wOp{K: "raw", S: s, A: raw, B: c19wNewGrp, X: tags})
-		case x < 81:
+		case x < 78:
 			p.Ops = append(p.Ops, wOp{K: "get", S: s, T: gPick(rt, []string{"me", "me", "g0", "g1"}, "tagsof"), A: "tags"})
 		case x < 88: // suspension / reinstatement, mostly by user 0 (root in most cases)
 			tgt := rapid.IntRange(1, 3).Draw(rt, "tgt")
@@ -382,11 +400,17 @@ func c19wGen(rt *rapid.T) c19wProg {
 			if gPct(rt, 15) {
 				by = s
 			}
-			status := gPick(rt, []string{"susp", "susp", "ok"}, "status")
+			status := gPick(rt, []string{"susp", "ok", "susp"}, "status")
 			if deadUser[tgt] {
 				break
 			}
 			p.Ops = append(p.Ops, wOp{K: "acc", S: by, U: tgt, A: status})
+			probe(p.Seed[tgt], tgt)
+			if status == "susp" && gPct(rt, 35) { // ... and back
+				status = "ok"
+				p.Ops = append(p.Ops, wOp{K: "acc", S: 0, U: tgt, A: status})
+				probe(p.Seed[tgt], tgt)
+			}
 			if status == "ok" {
 				for _, ts := range sessOf(tgt) {
 					p.Ops = append(p.Ops, wOp{K: "reconn", S: ts}, wOp{K: "sub", S: ts, T: "me"}, wOp{K: "sub", S: ts, T: "fnd"})
@@ -402,14 +426,16 @@ func c19wGen(rt *rapid.T) c19wProg {
 				break
 			}
 			deadUser[tgt] = true
-			p.Ops = append(p.Ops, wOp{K: "del", S: by, A: "user", U: tgt, F: gPct(rt, 40)})
+			p.Ops = append(p.Ops, wOp{K: "del", S: by, A: "user", U: tgt, F: gPct(rt, 25)})
+			probe(p.Seed[tgt], tgt)
 		case x < 95: // topic deletion
 			k := rapid.IntRange(0, 1).Draw(rt, "delgrp")
 			by := owners[k]
 			if gPct(rt, 20) {
 				by = s
 			}
-			p.Ops = append(p.Ops, wOp{K: "del", S: by, T: fmt.Sprintf("g%d", k), A: "topic", F: gPct(rt, 40)})
+			p.Ops = append(p.Ops, wOp{K: "del", S: by, T: fmt.Sprintf("g%d", k), A: "topic", F: gPct(rt, 25)})
+			probe(grpTags[k], -1)
 		case x < 97:
 			p.Ops = append(p.Ops, wOp{K: "restart"})
 			for ts := range p.Sess {
@@ -512,7 +538,6 @@ type c19wObs struct {
 	known  func(*kit.Viol) bool
 	setup  bool
 	armed  bool
-	att    *wAttach
 	users  []*c19wObj
 	groups []*c19wObj // by creation order; slots of w.groups first, then groups created by raw requests
 	pub    map[int]string
@@ -527,7 +552,7 @@ type c19wObs struct {
 	rewritten            int
 	hiddenFromUser       int
 	classes              map[string]bool
-	pendingFnd           *wStep
+	preSubs              map[int]map[string]bool // session slot -> routable names of the topics it was attached to before the step
 }
 
 func (o *c19wObs) class(c string) { o.classes[c] = true }
@@ -552,11 +577,10 @@ func (o *c19wObs) rep(v *kit.Viol) *kit.Viol {
 
 func c19wBasic(on bool) {
 	v := reflect.ValueOf(c19Store.GetAuthHandler("basic")).Elem()
+	// name set = "initialised"; always, so that a case does not depend on the cases run before it
+	c19SetUnexported(v, "name", "basic")
+	c19SetUnexported(v, "minLoginLength", 2)
 	c19SetUnexported(v, "addToTags", on)
-	if on {
-		c19SetUnexported(v, "name", "basic")
-		c19SetUnexported(v, "minLoginLength", 2)
-	}
 }
 
 func c19wDisarm() {
@@ -602,6 +626,12 @@ func (o *c19wObs) arm() {
 func (o *c19wObs) Before(w *wWorld, op *wOp) {
 	if !o.setup {
 		o.doSetup(w)
+	}
+	o.preSubs = map[int]map[string]bool{}
+	for k, ss := range w.sess {
+		if ss != nil && !ss.isClosed() {
+			o.preSubs[k] = c19wSet(ss.subNames())
+		}
 	}
 	if op.K == "tick" && op.A == c19wArm {
 		o.arm()
@@ -655,7 +685,7 @@ func c19wTagErr(tg string) string {
 // sent; legit: the requester was entitled to update this target; stored: the target's tags now.
 func (o *c19wObs) judgeTags(what string, st *wStep, old map[string]bool, requested []string, legit bool, code int, stored map[string]bool) (*kit.Viol, map[string]bool) {
 	img, clear, exact, open := c19wNormalise(requested)
-	if clear {
+	if clear && exact {
 		img = map[string]bool{}
 	}
 	accepted := code >= 200 && code < 300
@@ -772,12 +802,11 @@ func c19wTopicRow(snap *mem.State, name string) (tags, idx []string, state types
 
 func (o *c19wObs) After(w *wWorld, st *wStep) *kit.Viol {
 	v := o.after(w, st)
-	o.att.update(w, st)
 	// the public query lives as long as the session's attachment to 'fnd'
 	for s := range o.pub {
 		ok := false
 		if s < len(w.sess) && w.sess[s] != nil && !w.sess[s].isClosed() && w.sess[s].user >= 0 {
-			_, ok = o.att.get(s, w.users[w.sess[s].user].uid.FndName())
+			ok = w.sess[s].s.getSub(w.users[w.sess[s].user].uid.FndName()) != nil
 		}
 		if !ok {
 			delete(o.pub, s)
@@ -799,7 +828,7 @@ func (o *c19wObs) after(w *wWorld, st *wStep) *kit.Viol {
 	acked := code >= 200 && code < 300
 	attached := false
 	if st.Route != "" {
-		_, attached = o.att.get(st.Sess, st.Route)
+		attached = o.preSubs[st.Sess][st.Route]
 	}
 	actorOK := st.User >= 0 && st.User < len(o.users) && o.users[st.User].state == c19wOK
 
@@ -867,7 +896,8 @@ func (o *c19wObs) after(w *wWorld, st *wStep) *kit.Viol {
 	case st.Op.K == "raw" && st.Op.B == c19wNewGrp:
 		c := st.reply()
 		img, clear, exact, open := c19wNormalise(st.Op.X)
-		if clear {
+		full := img
+		if clear && exact {
 			img = map[string]bool{}
 		}
 		resImg := o.reserved(img)
@@ -885,7 +915,7 @@ func (o *c19wObs) after(w *wWorld, st *wStep) *kit.Viol {
 				if e := c19wTagErr(tg); e != "" {
 					return o.rep(kit.V("stored-tag-not-normalised:creation", "topic %s created with tag %q which %s: %s", c.Topic, tg, e, st.Req))
 				}
-				if !img[tg] {
+				if !full[tg] {
 					return o.rep(kit.V("stored-tag-invented:creation", "topic %s created with tag %q which is not the normal form of any requested tag: %s", c.Topic, tg, st.Req))
 				}
 			}
@@ -913,6 +943,21 @@ func (o *c19wObs) after(w *wWorld, st *wStep) *kit.Viol {
 			}
 		}
 	case st.Op.K == "del" && st.Op.A == "user":
+		if code == 0 && st.Op.U == st.Login && st.Op.U >= 0 && o.users[st.Op.U].state != c19wGone {
+			// Self-deletion: the session is stopped right after the reply is queued and the writer may
+			// see the stop first; the acknowledgement is then lost on the wire. Take the outcome from the store.
+			_, _, state, ok := c19wUserRow(snap, w.users[st.Op.U].uid)
+			switch {
+			case !ok:
+				o.users[st.Op.U].state = c19wGone
+				o.ownedFollow(st.Op.U, c19wGone)
+			case state == types.StateDeleted:
+				o.users[st.Op.U].state = c19wDel
+				o.ownedFollow(st.Op.U, c19wDel)
+			}
+			o.class("self-deletion-reply-lost")
+			break
+		}
 		if acked && st.Op.U >= 0 && st.Op.U < len(o.users) {
 			tgt := st.Op.U
 			state := c19wDel
@@ -1390,7 +1435,7 @@ func (o *c19wObs) judgeSearch(w *wWorld, st *wStep, healthy bool) *kit.Viol {
 func c19wExec(t *testing.T, r *kit.Run) func(c19wProg) kit.Outcome {
 	return func(p c19wProg) kit.Outcome {
 		r.WAL(p)
-		obs := &c19wObs{p: &p, att: newWAttach(), pub: map[int]string{}, priv: map[int]string{}, classes: map[string]bool{}}
+		obs := &c19wObs{p: &p, pub: map[int]string{}, priv: map[int]string{}, classes: map[string]bool{}}
 		obs.known = func(v *kit.Viol) bool { return r.IsKnown(v.Sig) && r.Violation(v, p) }
 		var res wRunResult
 		defer c19wDisarm()
